@@ -1,33 +1,62 @@
-(* Properties/C06.v — C06: every Execute on a healthy connection returns exactly once under any schedule.
-   Statements only; proofs in Proofs/ATPClient.v and Proofs/ATPClientWitness.v.  Model: ATP/Client.v (the ATP client
-   after the D20 repair, one step per critical section / I/O operation), ATP/ClientPreFix.v (the unchanged read loop).
+(* Properties/C06.v — C06: every Execute on a healthy connection returns exactly once under any schedule; Close
+   returns; after Close nothing the client started is left blocked.
+   Statements only; proofs in Proofs/ATPClient.v (measure, read-loop invariant, progress under flight_ok),
+   Proofs/ATPClientInv.v (the conservation invariant, inductive), Proofs/ATPClientFinal.v (maximal executions),
+   Proofs/ATPClientWitness.v (D20 window).  Model: ATP/Client.v (the ATP client after the D20 repair, one step per
+   critical section of c.mutex / I/O operation), ATP/ClientPreFix.v (the unchanged read loop).
 
-   FULL STATEMENTS (DESIGN §5 C06), kept visible; what is proved below is marked.
-     C06_inv                          PROVED for the read-loop conjuncts, for EVERY session (also faulty peers):
-                                      pending entry => live loop that has not passed its exit check; readLoopRunning =
-                                      "a loop is alive"; never two loops; a loop about to Decode has a pending entry.
-                                      NOT proved in Coq: the conservation conjuncts (entries <-> callers, wait-group
-                                      accounting, every waiting caller's answer in flight).  They are the executable
-                                      predicate ATP.Client.flight_ok, evaluated on every state of every model schedule of
-                                      every run of the check (a test, not a theorem).
-     C06_terminates                   PROVED in full: every step, client or environment, of every session decreases a
-                                      natural-number measure; every execution from s has at most mu(s) steps.
-     C06_no_stuck                     forall healthy se ls s, run (init se) ls = Some s -> (some Execute or Close not
-                                      returned) -> exists l, step s l <> None.
-                                      PROVED as C06_no_stuck_partial: for Execute calls, under the hypothesis flight_ok s.
-                                      Missing: flight_ok as an invariant of healthy sessions; the Close half.
-     C06_every_execute_returns_once   forall healthy se, every maximal execution ends with every caller Done.
-                                      PROVED as ..._partial under flight_ok of the final state ("exactly once" is by
-                                      construction: a caller's program counter reaches Done once and has no step after).
-     after Close no client goroutine blocked: NOT proved in Coq; checked on the implementation by every replayed schedule
-                                      with Close (the `left` observation must be empty) and by the schedule exploration. *)
+   SESSIONS.  `good_session se` (Proofs/ATPClientInv.v) =
+       wf_session: the run ids of the calls are distinct; a call's predecessor on its harness goroutine has a smaller index
+       answered:   the peer's script for the run of every call holds an event that ends the call (work done, malformed
+                   work done, step-fatal / run-less step-fatal / server-fatal error, or a stream fault)
+       fault_ok:   the scripted fault, if there is one, is a fault of the stream (not a message).
+   A healthy connection is the case `se_fault = None`, `se_wfail = None` with message-only scripts; the theorems below
+   need less: C06_no_stuck / C06_every_execute_returns_once hold for every good session (also faulty ones, see C08),
+   the Close half needs in addition that no write fails (`se_wfail = None`; otherwise D25, Properties/C08.v).
+
+   "Every schedule" = every label list `ls`; a MAXIMAL execution = `run (init se) ls = Some s` with `final s`
+   (no label is enabled in s); executions are finite by C06_terminates, so every execution extends to a maximal one.
+
+     C06_inv                          PROVED: the conservation invariant `inv` (read-loop conjuncts invA; entries <->
+                                      callers between Prepare and Take invE; wait-group accounting invW; Close's
+                                      bookkeeping invK; every waiting caller's answer in flight invP) holds in the initial
+                                      state of every good session and is preserved by every step for every label.
+     C06_flight_ok                    PROVED: hence the executable predicate ATP.Client.flight_ok, which the correspondence
+                                      runs also evaluate on every model state, holds in every reachable state.
+     C06_terminates / _executions_finite   PROVED (every step of every session decreases a natural-number measure).
+     C06_no_stuck                     PROVED: a reachable state with an unreturned Execute has an enabled step.
+     C06_every_execute_returns_once   PROVED: in every maximal execution every caller is Done, and along the execution
+                                      each caller has exactly ONE return event (its result is taken once).
+     C06_close_leaves_nothing_blocked PROVED: in every maximal execution of a session with Close and without write
+                                      failures Close returned nil, wg = 0, the read loop has exited, every signal writer
+                                      has exited, every Execute has returned.
+     C06_window_refuted               the unchanged read loop: a 16-step schedule ends with an Execute waiting for ever. *)
 From Coq Require Import Lia.
-From Verif Require Import Base.Prelude Base.Str ATP.Msg ATP.Client ATP.ClientPreFix Proofs.ATPClient Proofs.ATPClientWitness.
+From Verif Require Import Base.Prelude Base.Str ATP.Msg ATP.Client ATP.ClientPreFix Proofs.ATPClient Proofs.ATPClientWitness
+  Proofs.ATPClientInv Proofs.ATPClientFinal Proofs.ATPClientExamples.
 
 Theorem C06_inv : forall (payload : Type) (se : session payload) ls s,
+  good_session se -> run (init se) ls = Some s -> inv s.
+Proof. exact inv_reachable. Qed.
+Print Assumptions C06_inv.
+
+(* the invariant is inductive: it holds initially and every step, for every label, preserves it *)
+Theorem C06_inv_inductive : forall (payload : Type),
+  (forall se : session payload, good_session se -> inv (init se)) /\
+  (forall (s : state payload) l s', inv s -> step s l = Some s' -> inv s').
+Proof. intros payload. split; [apply inv_init|apply inv_step]. Qed.
+Print Assumptions C06_inv_inductive.
+
+(* the read-loop conjuncts need no assumption on the session at all *)
+Theorem C06_inv_read_loop : forall (payload : Type) (se : session payload) ls s,
   run (init se) ls = Some s -> invA s.
 Proof. intros payload se ls s H. eapply invA_run; [apply invA_init|exact H]. Qed.
-Print Assumptions C06_inv.
+Print Assumptions C06_inv_read_loop.
+
+Theorem C06_flight_ok : forall (payload : Type) (se : session payload) ls s,
+  good_session se -> run (init se) ls = Some s -> flight_ok s = true.
+Proof. intros payload se ls s G H. apply inv_flight_ok. eapply inv_reachable; eauto. Qed.
+Print Assumptions C06_flight_ok.
 
 Theorem C06_terminates : forall (payload : Type) (s : state payload) l s',
   step s l = Some s' -> (mu s' < mu s)%nat.
@@ -39,21 +68,45 @@ Theorem C06_executions_finite : forall (payload : Type) ls (s s' : state payload
 Proof. exact run_length_bounded. Qed.
 Print Assumptions C06_executions_finite.
 
-Theorem C06_no_stuck_partial : forall (payload : Type) (se : session payload) ls s,
-  run (init se) ls = Some s -> flight_ok s = true ->
+Theorem C06_no_stuck : forall (payload : Type) (se : session payload) ls s,
+  good_session se -> run (init se) ls = Some s ->
   forall i c, nth_error (callers s) i = Some c -> caller_done c = false -> exists l, step s l <> None.
-Proof. intros payload se ls s H F. apply caller_progress; auto. eapply invA_run; [apply invA_init|exact H]. Qed.
-Print Assumptions C06_no_stuck_partial.
+Proof. intros payload se ls s G H. apply inv_progress. eapply inv_reachable; eauto. Qed.
+Print Assumptions C06_no_stuck.
 
-Theorem C06_every_execute_returns_once_partial : forall (payload : Type) (se : session payload) ls s,
-  run (init se) ls = Some s -> (forall l, step s l = None) -> flight_ok s = true ->
-  forall i c, nth_error (callers s) i = Some c -> caller_done c = true.
+Theorem C06_every_execute_returns_once : forall (payload : Type) (se : session payload) ls s,
+  good_session se -> run (init se) ls = Some s -> final s ->
+  map (@c_run payload) (callers s) = map (@cs_run payload) (se_calls se) /\
+  forall i c, nth_error (callers s) i = Some c -> caller_done c = true /\ returns (init se) ls i = 1%nat.
 Proof.
-  intros payload se ls s H Hmax F i c Hc. destruct (caller_done c) eqn:Hd; auto.
-  assert (invA s) as I by (eapply invA_run; [apply invA_init|exact H]).
-  destruct (caller_progress _ _ I F i _ Hc Hd) as [l Hl]. now rewrite Hmax in Hl.
+  intros payload se ls s G H F. split.
+  - rewrite (run_skel _ _ _ _ H). cbn. apply init_runs.
+  - intros i c Hc. assert (caller_done c = true) as Hd by (eapply final_all_done; eauto; eapply inv_reachable; eauto).
+    split; auto. pose proof (returns_count _ _ _ _ i H) as Hn.
+    rewrite (returned_init _ se i), (returned_done _ _ _ _ Hc), Hd in Hn. lia.
 Qed.
-Print Assumptions C06_every_execute_returns_once_partial.
+Print Assumptions C06_every_execute_returns_once.
+
+Theorem C06_close_leaves_nothing_blocked : forall (payload : Type) (se : session payload) ls s,
+  good_session se -> se_wfail se = None -> se_close se = true -> run (init se) ls = Some s -> final s ->
+  closer s = KDone CloseOk /\ wg s = 0%nat /\ loop_live (cur s) = false /\
+  (forall i c, nth_error (callers s) i = Some c -> caller_done c = true /\ (c_spc c = SNone \/ c_spc c = SExit)).
+Proof.
+  intros payload se ls s G Hw Hc H F. apply final_closed; auto.
+  - eapply inv_reachable; eauto.
+  - eapply run_wr_none; eauto.
+  - intros E. apply (run_closer_none _ _ _ _ H) in E. cbn in E. rewrite Hc in E. discriminate.
+Qed.
+Print Assumptions C06_close_leaves_nothing_blocked.
+
+(* without Close the read loop still exits once nothing is pending, and every Execute has returned *)
+Theorem C06_no_close_loop_exits : forall (payload : Type) (se : session payload) ls s,
+  good_session se -> se_wfail se = None -> run (init se) ls = Some s -> final s ->
+  loop_live (cur s) = false /\ forall i c, nth_error (callers s) i = Some c -> caller_done c = true.
+Proof.
+  intros payload se ls s G Hw H F. apply final_open; auto; [eapply inv_reachable; eauto|eapply run_wr_none; eauto].
+Qed.
+Print Assumptions C06_no_close_loop_exits.
 
 (* the unchanged read loop: a schedule of the healthy two-call serial session that ends with the second Execute waiting
    for ever - its answer sits unread in the stream, no read loop is alive, nothing can move (D20) *)
@@ -65,12 +118,16 @@ Theorem C06_window_refuted :
 Proof. exact window_stuck. Qed.
 Print Assumptions C06_window_refuted.
 
-(* non-vacuity: the same session on the repaired client runs to the end (both calls returned, two read loops were
-   started, wait group back at zero), and a reachable mid-session state meets the hypotheses of C06_no_stuck_partial *)
+(* non-vacuity: the two-call serial session is a good session without faults or write failures; on the repaired client
+   its 18-step schedule is a maximal execution (both calls returned, two read loops were started, wait group back at
+   zero), and a reachable mid-session state has an unreturned Execute *)
+Example C06_serial2_is_good : good_session serial2 /\ se_fault serial2 = None /\ se_wfail serial2 = None.
+Proof. exact serial2_good. Qed.
+
 Example C06_repaired_session_completes :
-  exists s, run (init serial2) repaired_schedule = Some s /\ flight_ok s = true /\
+  exists s, run (init serial2) repaired_schedule = Some s /\ final s /\ flight_ok s = true /\
             forallb (@caller_done unit) (callers s) = true /\ nloops s = 2%nat /\ wg s = 0%nat.
-Proof. exact repaired_ok. Qed.
+Proof. exact repaired_ok_final. Qed.
 
 Example C06_no_stuck_hypotheses_satisfiable :
   exists s c, run (init serial2) (firstn 14 repaired_schedule) = Some s /\ flight_ok s = true /\
